@@ -1,10 +1,10 @@
 package main
 
 import (
-	"golang.org/x/sys/unix"
 	"bufio"
 	"encoding/json"
 	"fmt"
+	"golang.org/x/sys/unix"
 	"os"
 	"path/filepath"
 	"runtime"
